@@ -499,9 +499,9 @@ func c01Run(in *c01In) c01Obs {
 // ---------------------------------------------------------------- generators
 
 var (
-	c01Hosts    = []string{"a.com", "b.com", "a.co", "www.a.com", "x.org"}
+	c01Hosts    = []string{"a.com", "b.com", "a.co", "www.a.com", "x.org", "API.Example.com", "A.com", "::1", "[::1]"}
 	c01HostREs  = []string{`^a\.`, `\.com$`, `^[ab]\.com$`, `^www\..*$`, `.*`, `^a\.com$`}
-	c01ReqHosts = []string{"a.com", "b.com", "a.co", "www.a.com", "x.org", "a.com:80", "b.com:8080", "[::1]:80", "[::1]", "a.com:", "a.com:80:90", "", "A.com", "a.comm", "www.a.com:443", "[a.com]:80", "a.com]:80"}
+	c01ReqHosts = []string{"a.com", "b.com", "a.co", "www.a.com", "x.org", "a.com:80", "b.com:8080", "[::1]:80", "[::1]", "a.com:", "a.com:80:90", "", "A.com", "a.comm", "www.a.com:443", "[a.com]:80", "a.com]:80", "api.example.com", "API.EXAMPLE.COM:80", "[::1]:8080", "::1"}
 	c01Paths    = []string{"/a", "/ab", "/a/b", "/b", "/", "/a/"}
 	c01Prefixes = []string{"/a", "/a/", "/", "/b", "/ab"}
 	c01PathREs  = []string{`^/a(.*)$`, `/([a-z]+)/([0-9]+)`, `^/b$`, `^/[ab]+$`, `a`, `^/(a|b)/`, `^/a/[^/]+$`, `^/a/(.*)$`}
@@ -664,6 +664,32 @@ func c01GenRemote(r *vfRand) (string, [][2]string) {
 	}
 }
 
+// c01HostVariant: the configured host byte for byte, or (1 in 4) the same name in
+// another letter case - host comparison is exact, so that one must NOT match.
+func c01HostVariant(r *vfRand, h string) string {
+	if r.Chance(3, 4) {
+		return h
+	}
+	if l := strings.ToLower(h); l != h && r.Bool() {
+		return l
+	}
+	if u := strings.ToUpper(h); u != h && r.Bool() {
+		return u
+	}
+	return strings.ToLower(h)
+}
+
+// c01WithPort appends a port; an IPv6 literal is bracketed first ([::1]:8080).
+func c01WithPort(r *vfRand, h string) string {
+	if strings.Contains(h, ":") && !strings.HasPrefix(h, "[") {
+		if r.Chance(1, 8) {
+			return h + r.PickStr(":80", ":") // malformed on purpose: too many colons
+		}
+		return "[" + h + "]" + r.PickStr(":80", ":8080", "")
+	}
+	return h + r.PickStr(":80", ":8080", ":")
+}
+
 // c01GenReq derives a request from the rule set: mostly hits and near misses.
 func c01GenReq(r *vfRand, s c01Server, withIP bool) c01Req {
 	q := c01Req{Host: c01Pick(r, c01ReqHosts), Method: c01Pick(r, c01ReqMeths), Path: c01Pick(r, c01ReqPaths), Headers: [][2]string{}}
@@ -671,12 +697,12 @@ func c01GenReq(r *vfRand, s c01Server, withIP bool) c01Req {
 	if len(s.Rules) > 0 && r.Chance(9, 10) {
 		rule := s.Rules[r.Intn(len(s.Rules))]
 		if rule.Host != "" && r.Chance(3, 4) {
-			q.Host = rule.Host
+			q.Host = c01HostVariant(r, rule.Host)
 		} else if rule.HostRegexp != "" {
 			q.Host = c01Pick(r, c01Hosts)
 		}
 		if r.Chance(1, 3) && q.Host != "" {
-			q.Host += r.PickStr(":80", ":8080", ":")
+			q.Host = c01WithPort(r, q.Host)
 		}
 		if len(rule.Paths) > 0 {
 			p := rule.Paths[r.Intn(len(rule.Paths))]
